@@ -168,7 +168,9 @@ def run(ctx, rep):
            "a disconnected client is not dropped (or another descriptor is)", fr.loc)
     fdc = ctx.func(SRV + ".ThreadPoolServer._drop_connection")
     dp = A.params(fdc.node)[1]
-    okdd = "del self.fd_to_conn[%s]" % dp in A.src(fdc.node) and bool(A.find_calls(fdc.node, "conn.close"))
+    cvars = [n.targets[0].id for n in A.walk(fdc.node) if isinstance(n, ast.Assign) and isinstance(n.targets[0], ast.Name)
+             and isinstance(n.value, ast.Subscript) and "self.fd_to_conn" in A.src(n.value.value)]
+    okdd = "del self.fd_to_conn[%s]" % dp in A.src(fdc.node) and any(A.find_calls(fdc.node, "%s.close" % v) for v in cvars)
     rep.ob("R16.2", "ThreadPoolServer._drop_connection: untracks the descriptor and closes that connection", okdd,
            "del self.fd_to_conn[fd]; conn.close()" if okdd else "_drop_connection no longer (untracks fd, closes conn)", fdc.loc)
 
